@@ -7,8 +7,8 @@
    clauses on every case, and the enumerated states are exported to the Go driver. *)
 EXTENDS WireMeta, TLC
 CONSTANTS MaxLen, KeySet, Mutant
-VARIABLES kind, md, valid
-vars == <<kind, md, valid>>
+VARIABLES kind, md, valid, grp
+vars == <<kind, md, valid, grp>>
 
 N_k == <<107>>                    \* k
 N_d_bin == <<100,45,98,105,110>>  \* d-bin
@@ -16,6 +16,10 @@ N_Up == <<85,112>>                \* Up   (valid only when appended: the API low
 N_kat == <<107,64>>               \* k@   (illegal character)
 N_k1x == <<107,46,49,95,120>>     \* k.1_x
 N_empty == <<>>                   \* empty key
+\* illegal keys that end in -bin (the -bin suffix exempts the VALUE from validation, never the key)
+N_Kbin == <<75,45,98,105,110>>               \* K-bin   (upper case: valid only when appended)
+N_katbin == <<107,64,45,98,105,110>>         \* k@-bin
+N_kspbin == <<107,32,107,45,98,105,110>>     \* "k k-bin"
 Keys == IF KeySet = 1 THEN {N_k, N_d_bin, N_te, N_path, N_user_agent, N_Up, N_kat}
         ELSE {N_k, N_d_bin, N_te, N_path, N_user_agent, N_Up, N_kat, N_k1x, N_empty, N_grpc_status, N_content_type, N_authority}
 Vals == IF KeySet = 1 THEN {<<>>, <<97>>, <<0,255>>, <<97,44,98>>}
@@ -29,9 +33,14 @@ SeqUpTo(S, n) == UNION {[1..m -> S] : m \in 0..n}
 
 \* names with a special treatment in the server transport (gRFC A41), next to a plain key
 SpecialEntries == {[k |-> k, v |-> <<97>>, app |-> FALSE] : k \in {N_host, N_connection, N_k}}
-Init == /\ \/ (kind = "user" /\ md \in SeqUpTo(Entries, MaxLen) \cup SeqUpTo(SpecialEntries, MaxLen))
+\* illegal -bin keys next to a legal -bin key and a plain key
+BinVals == IF KeySet = 1 THEN {<<97>>, <<0,255>>} ELSE Vals
+BinEntries == {[k |-> k, v |-> v, app |-> a] : k \in {N_Kbin, N_katbin, N_kspbin, N_d_bin, N_k}, v \in BinVals, a \in BOOLEAN}
+\* grp = TRUE: all appended pairs are handed to ONE AppendToOutgoingContext call (else one call per pair)
+Init == /\ \/ (kind = "user" /\ md \in SeqUpTo(Entries, MaxLen) \cup SeqUpTo(SpecialEntries, MaxLen) \cup SeqUpTo(BinEntries, MaxLen))
            \/ (kind = "peer" /\ md \in SeqUpTo(PeerEntries, MaxLen))
         /\ valid = Valid(md)
+        /\ grp \in BOOLEAN /\ (grp => kind = "user" /\ Len(Appended(md)) >= 2)
 Next == UNCHANGED vars
 
 B(s) == s   \* (byte strings are written as tuples)
